@@ -19,7 +19,15 @@ func Parse(ctx *Context, p Parser) (Node, error) {
 	var err Error
 	var node Node
 
-	if node, _, err = p.Parse(ctx, data.EmptyIntMap, ctx.Reader().Pos(0)); err != nil {
+	node, _, err = p.Parse(ctx, data.EmptyIntMap, ctx.Reader().Pos(0))
+	if node == nil && err == nil {
+		// A parser may fail without an error of its own (e.g. a left-recursive rule that was only curtailed).
+		// Parse must never return (nil, nil): report the furthest recorded error, or a generic one at the start.
+		if err = ctx.Error(); err == nil {
+			err = NewError(ctx.Reader().Pos(0), NotFoundError("a valid input"))
+		}
+	}
+	if err != nil {
 		if !IsWhitespaceError(err) {
 			if ctxErr := ctx.Error(); ctxErr != nil && ctxErr.Pos() > err.Pos() {
 				err = ctxErr
